@@ -1,7 +1,7 @@
 #!/bin/bash
 # usage: tools/store_seed.sh <Cxx> <variant> : verify a sub-agent's seed and keep it under /verif/seeded/<Cxx>-<variant>/
 set -u
-ID=$1; V=$2; SRC=/tmp/seed-out/$ID/$V; DST=/verif/seeded/$ID-$V
+ID=$1; V=$2; SRC=${SEED_ROOT:-/tmp/seed-out}/$ID/$V; DST=/verif/seeded/$ID-$V
 OUT=$(/verif/tools/verify_seed.sh $ID $V 2>&1); echo "$OUT" | tail -3
 if echo "$OUT" | grep -q "RESULT $ID-$V confirmed"; then
   mkdir -p $DST; cp $SRC/patch.diff $DST/; [ -f $SRC/demo.rs ] && cp $SRC/demo.rs $DST/; [ -f $SRC/demo.sh ] && cp $SRC/demo.sh $DST/
